@@ -206,6 +206,21 @@ func genRegexRule(r *rng) (f *rules.NetworkRule) {
 				`ads|`, `|ads`, `(|ads)track`, `^ads$|^banner$`, `tr\w{0}ack`, `[a]dserver`, `ads{0}erver`, `(?:ads|ads)erver`})
 		case 1:
 			re = genRegexText(r)
+		case 2:
+			// group P3: the shapes on which parser.factor mixes up fold flags; $match-case more often
+			re = genQuirkText(r)
+			if r.chance(1, 2) {
+				re = pick(r, []string{"", "ads", `\/`, "x"}) + "(" + re + ")" + pick(r, []string{"", "banner", `\.js`, "y"})
+			}
+			qt := "/" + re + "/"
+			if r.chance(2, 3) {
+				qt += "$match-case"
+			}
+			if g, err := guardRule(qt, 1); err == nil && g != nil && g.IsRegexRule() {
+				return g
+			}
+
+			continue
 		default:
 			re = genRuleRegexSeq(r, 2, 1+r.n(4))
 			if r.chance(1, 4) {
